@@ -438,10 +438,12 @@ def declarations_left_intact(ctx):
 def override_matching(ctx):
     """R10.4: abstractness and polymorphism rest on get_virtual_funcs()/get_pure_virtual_funcs(), which match a member
     against an inherited virtual with CPPFunctionType::match_virtual_override().  `override` and `final` are not part of
-    the signature on EITHER side: an intermediate class that wrote `override` must still be overridable further down."""
+    the signature on EITHER side: an intermediate class that wrote `override` must still be overridable further down.
+    Neither are `noexcept` (an overrider may add it) and the trailing-return spelling.  (My first version of this rule
+    demanded that a noexcept difference be rejected - it had copied defect F-C10e from the code.)"""
     from .C18 import _ev
     db = ctx.db
-    ctx.rule("R10.4", "the flag test of match_virtual_override(), evaluated from its expression tree for every pair of flag words over {const, noexcept, override, final, variadic}, rejects a pair iff the words differ outside {F_override, F_final}")
+    ctx.rule("R10.4", "the flag test of match_virtual_override(), evaluated from its expression tree for every pair of flag words over {const, volatile, &, &&, noexcept, trailing-return, override, final}, rejects a pair iff the words differ in a part of the signature ([class.virtual]/2: cv- and ref-qualification); override, final, noexcept and the trailing-return spelling never make a difference")
     fn = db.fn("CPPFunctionType::match_virtual_override")
     en = db.enums.get("CPPFunctionType::Flags")
     if en is None:
@@ -465,8 +467,12 @@ def override_matching(ctx):
     if not rejects:
         ctx.broken("match_virtual_override: the _flags test no longer returns false")
     other = [p for p in fn.params][0]["n"]
-    bits = [val["F_const_method"], val["F_override"], val["F_final"]] + [val[k] for k in ("F_noexcept", "F_variadic", "F_volatile_method", "F_lvalue_method") if k in val][:2]
-    ignore = val["F_override"] | val["F_final"]
+    sig_names = [k for k in ("F_const_method", "F_volatile_method", "F_lvalue_method", "F_rvalue_method") if k in val]
+    non_names = [k for k in ("F_override", "F_final", "F_noexcept", "F_trailing_return_type") if k in val]
+    bits = [val[k] for k in sig_names + non_names]
+    ignore = 0
+    for k in non_names:
+        ignore |= val[k]
     words = []
     for m in range(1 << len(bits)):
         w = 0
@@ -476,11 +482,23 @@ def override_matching(ctx):
         words.append(w)
     bad = []
     n_eval = 0
+    # local constants the test may use (e.g. `const int not_signature = F_override | ...`)
+    consts = {}
+    for y in fn.walk():
+        if y.get("k") == "decls":
+            for d in y["d"]:
+                if d.get("init") is not None:
+                    try:
+                        consts[d["n"]] = _ev(db, d["init"], dict(consts))
+                    except ValueError:
+                        pass
     try:
         for a in words:
             for b in words:
                 n_eval += 1
-                got = bool(_ev(db, t["c"], {"_flags": a, other + "._flags": b}))
+                env = dict(consts)
+                env.update({"_flags": a, other + "._flags": b})
+                got = bool(_ev(db, t["c"], env))
                 want = ((a ^ b) & ~ignore) != 0
                 if got != want and len(bad) < 4:
                     names = lambda w: "|".join(k for k in val if val[k] and val[k] & w and bin(val[k]).count("1") == 1) or "0"
@@ -489,7 +507,7 @@ def override_matching(ctx):
         ctx.ob("R10.4", "match_virtual_override|flags-modulo-override-final", False, fn.loc(t), "flag test not evaluable: %s" % e)
         return
     ctx.ob("R10.4", "match_virtual_override|flags-modulo-override-final", not bad, fn.loc(t),
-           "`%s` evaluated on %d flag pairs: %s" % (show(t["c"])[:70], n_eval, "; ".join(bad) if bad else "rejects exactly the pairs that differ outside override/final"))
+           "`%s` evaluated on %d flag pairs: %s" % (show(t["c"])[:70], n_eval, "; ".join(bad) if bad else "rejects exactly the pairs that differ in cv-/ref-qualification"))
     ctx.floor("R10.4", "flag pairs evaluated", n_eval, 256)
 
 
